@@ -585,6 +585,11 @@ func RunMapInitExpr(ctx *Task, expr *ast.MapLiteral) (any, ast.DType, *errchain.
 // }
 
 func RunIndexExprGet(ctx *Task, expr *ast.IndexExpr) (any, ast.DType, *errchain.PlError) {
+	if expr.Obj == nil {
+		// `.[i]` is only a path argument of some functions, it has no value
+		return nil, ast.Void, nil
+	}
+
 	key := expr.Obj.Name
 
 	varb, err := ctx.GetKey(key)
@@ -905,6 +910,10 @@ func RunAssignmentExpr(ctx *Task, expr *ast.AssignmentExpr) (any, ast.DType, *er
 				"unsupported op", expr.OpPos)
 		}
 	case ast.TypeIndexExpr:
+		if LHS.IndexExpr().Obj == nil {
+			return nil, ast.Invalid, NewRunError(ctx,
+				"unsupported assignment target", expr.OpPos)
+		}
 		switch expr.Op {
 		case ast.EQ:
 			varb, err := ctx.GetKey(LHS.IndexExpr().Obj.Name)
@@ -1068,13 +1077,6 @@ func RunSliceExpr(ctx *Task, expr *ast.SliceExpr) (any, ast.DType, *errchain.PlE
 			return nil, ast.Invalid, NewRunError(ctx, "start type must be integer", expr.Start.StartPos())
 		}
 		startInt = cast.ToInt(start)
-		if startInt < 0 {
-			startInt = length + startInt
-		}
-	} else if stepInt > 0 {
-		startInt = 0
-	} else {
-		startInt = length - 1
 	}
 
 	if end != nil {
@@ -1082,66 +1084,87 @@ func RunSliceExpr(ctx *Task, expr *ast.SliceExpr) (any, ast.DType, *errchain.PlE
 			return nil, ast.Invalid, NewRunError(ctx, "end type must be integer", expr.End.StartPos())
 		}
 		endInt = cast.ToInt(end)
-		if endInt < 0 {
-			endInt = length + endInt
-		}
-	} else if stepInt > 0 {
-		endInt = length
-	} else {
-		endInt = -1
 	}
+
+	first, count := SliceRange(length, startInt, endInt, stepInt, start != nil, end != nil)
 
 	switch objT {
 	case ast.String:
 		str := obj.(string)
-		if stepInt > 0 {
-			result := ""
-			if startInt < 0 {
-				startInt = 0
-			}
-			for i := startInt; i < endInt && i < length; i += stepInt {
-				result += string(str[i])
-			}
-			return result, ast.String, nil
-		} else {
-			result := ""
-			if startInt > length-1 {
-				startInt = length - 1
-			}
-			for i := startInt; i > endInt && i >= 0; i += stepInt {
-				result += string(str[i])
-			}
-			return result, ast.String, nil
+		result := make([]byte, 0, count)
+		for k := 0; k < count; k++ {
+			result = append(result, str[first+k*stepInt])
 		}
+		return string(result), ast.String, nil
 	default:
 		list := obj.([]any)
-		if stepInt > 0 {
-			if startInt < 0 {
-				startInt = 0
-			}
-			if endInt > length {
-				endInt = length
-			}
-			result := make([]any, 0, (endInt-startInt+stepInt-1)/stepInt)
-			for i := startInt; i < endInt; i += stepInt {
-				result = append(result, list[i])
-			}
-			return result, ast.List, nil
-		} else {
-			if startInt > length-1 {
-				startInt = length - 1
-			}
-			if endInt < 0 {
-				endInt = -1
-			}
-			result := make([]any, 0, (startInt-endInt-stepInt-1)/(-stepInt))
-			for i := startInt; i > endInt; i += stepInt {
-				result = append(result, list[i])
-			}
-			return result, ast.List, nil
+		result := make([]any, 0, count)
+		for k := 0; k < count; k++ {
+			result = append(result, list[first+k*stepInt])
 		}
+		return result, ast.List, nil
 	}
 }
+
+// SliceRange resolves slice bounds the way Python does (negative bounds count
+// from the end, out-of-range bounds are clamped, omitted bounds depend on the
+// sign of step) and returns the index of the first selected element and the
+// number of selected elements. step must not be 0.
+func SliceRange(length, start, end, step int, hasStart, hasEnd bool) (first, count int) {
+	if step > 0 {
+		switch {
+		case !hasStart:
+			start = 0
+		case start < 0:
+			if start += length; start < 0 {
+				start = 0
+			}
+		case start > length:
+			start = length
+		}
+		switch {
+		case !hasEnd:
+			end = length
+		case end < 0:
+			if end += length; end < 0 {
+				end = 0
+			}
+		case end > length:
+			end = length
+		}
+		if start >= end {
+			return start, 0
+		}
+		return start, (end-start-1)/step + 1
+	}
+
+	switch {
+	case !hasStart:
+		start = length - 1
+	case start < 0:
+		if start += length; start < 0 {
+			start = -1
+		}
+	case start >= length:
+		start = length - 1
+	}
+	switch {
+	case !hasEnd:
+		end = -1
+	case end < 0:
+		if end += length; end < 0 {
+			end = -1
+		}
+	case end >= length:
+		end = length - 1
+	}
+	if start <= end {
+		return start, 0
+	}
+	// |step| without overflowing on the most negative int
+	return start, int(uint(start-end-1)/(uint(-(step+1))+1)) + 1
+}
+
 func typePromotion(l ast.DType, r ast.DType) ast.DType {
 	if l == ast.Float || r == ast.Float {
 		return ast.Float
